@@ -367,6 +367,7 @@ class C20(Check):
         shut_req = []                                   # bytes pending at each shutdown(send) request
         started = [False]                               # the loop's first pass (which registers the worker) happens at the first
         status = "ok"                                   # pump: sends and even a fatal send_fast error may precede it
+        trace = []
         try:
             for op in case["ops"]:
                 if op["op"] == "send":
@@ -402,13 +403,15 @@ class C20(Check):
                     sock.script = [self._o(op["o"])] + [self._o(o) for o in op.get("more", [])]
                     sel = answer(sel, [], [w] if w in wl else [])
                     sock.script = []
+                # the state after EVERY operation, not only the last (ties the over-time theorem ioworker_history)
+                trace.append([len(sock.accepted), len(w.send_buf), int(bool(w.closed))])
         except StopIteration:
             status = "raise:nothing — the I/O loop serving every worker ended (select on a closed socket)"
         except Exception as e:
             status = "raise:" + type(e).__name__
         return {"accepted": sock.accepted.hex(), "send_buf": bytes(w.send_buf).hex(), "closed": bool(w.closed), "close_events": len(closes),
                 "offered": sock.offered, "offered_after_fatal": sock.offered_after_fatal, "status": status,
-                "shut_wr": sock.shut_wr, "shut_req": shut_req, "fatal_seen": sock.fatal_seen}
+                "shut_wr": sock.shut_wr, "shut_req": shut_req, "fatal_seen": sock.fatal_seen, "trace": trace}
 
     def _impl_b(self, case):
         of_01 = self.of_01
@@ -620,7 +623,10 @@ class C20(Check):
 
     def impl_view(self, case, obs):
         if case["part"] == "A":
-            return {k: obs[k] for k in ("accepted", "send_buf", "closed", "close_events", "offered", "shut_wr")}
+            # a run that raised stopped early: its trace is compared as far as it got
+            v = {k: obs[k] for k in ("accepted", "send_buf", "closed", "close_events", "offered", "shut_wr")}
+            v["trace"] = obs["trace"]
+            return v
         if case["part"] == "M":
             return {"views": [dict({k: c[k] for k in ("accepted", "pending", "disc", "offered_after_disc")}, sending=obs["sending"]) for c in obs["cons"]]}
         return {k: obs[k] for k in ("accepted", "pending", "disc", "sending", "offered_after_disc")}
@@ -629,7 +635,7 @@ class C20(Check):
         if "error" in resp: return resp
         if case["part"] == "M":
             return {"views": [{k: v[k] for k in ("accepted", "pending", "disc", "offered_after_disc", "sending")} for v in resp["views"]]}
-        keys = ("accepted", "send_buf", "closed", "close_events", "offered", "shut_wr") if case["part"] == "A" else ("accepted", "pending", "disc", "sending", "offered_after_disc")
+        keys = ("accepted", "send_buf", "closed", "close_events", "offered", "shut_wr", "trace") if case["part"] == "A" else ("accepted", "pending", "disc", "sending", "offered_after_disc")
         return {k: resp[k] for k in keys}
 
     # ------------------------------------------------------------------ the property on the implementation
